@@ -152,6 +152,35 @@ impl Check for C02 {
     fn generate(&self, profile: &str, seed: u64) -> Plan {
         gen::generate(profile, seed).expect("profile")
     }
+    /// The honest-swarm precondition: every piece is offered (from the start or through a later
+    /// Have) by an essential peer, i.e. one that is listed, accepts connections, unchokes and
+    /// never leaves by itself.
+    fn plan_ok(&self, plan: &Plan) -> bool {
+        use crate::plan::{Accept, Act, Unchoke};
+        let n = plan.geometry.pieces();
+        let listed: Vec<String> = plan
+            .tracker
+            .steps
+            .iter()
+            .filter_map(|(_, s)| match s {
+                crate::plan::TrackerStep::Good { peers, .. } => Some(peers.clone()),
+                _ => None,
+            })
+            .flatten()
+            .collect();
+        (0..n).all(|i| {
+            plan.peers.iter().any(|p| {
+                p.essential
+                    && p.listed
+                    && listed.contains(&p.name)
+                    && p.accept == Accept::Accept
+                    && p.unchoke != Unchoke::Never
+                    && p.max_accepts >= 2
+                    && !p.script.iter().any(|s| matches!(s.act, Act::CloseFin | Act::CloseRst | Act::Silence | Act::Stall(_)))
+                    && (p.has.get(i).cloned().unwrap_or(false) || p.script.iter().any(|s| s.act == Act::Gain(i as u32)))
+            })
+        })
+    }
     fn judge(&self, v: &View) -> Verdict {
         let mut vd = Verdict::default();
         let s = &v.out.stats;
